@@ -73,6 +73,12 @@ impl Timestamp {
             TimestampFormat::DateTime => time::OffsetDateTime::parse(s, &Rfc3339)?,
             TimestampFormat::HttpDate => time::PrimitiveDateTime::parse(s, RFC1123)?.assume_utc(),
             TimestampFormat::EpochSeconds => match s.split_once('.') {
+                // instants before the epoch are written with a leading minus sign
+                _ if s.starts_with('-') => {
+                    let Self(t) = Self::parse(format, &s[1..])?;
+                    let nanos = t.unix_timestamp_nanos().checked_neg().ok_or(ParseTimestampError::Overflow)?;
+                    time::OffsetDateTime::from_unix_timestamp_nanos(nanos)?
+                }
                 Some((secs, frac)) => {
                     let secs: i64 = secs.parse::<u64>()?.try_into().map_err(|_| ParseTimestampError::Overflow)?;
                     let val: u32 = frac.parse::<u32>()?;
